@@ -8,14 +8,54 @@ LEVEL = 'proof'
 DRIVER = 'drv_c16'
 HARNESS = 'c16.cpp'
 SOURCES = ['src/monitoring/OnlineAverage.cpp', 'src/monitoring/OnlineVariance.cpp']
-PROOF_MODULES = ['RomeaProofs.Properties.C16']
+PROOF_MODULES = ['RomeaProofs.Properties.C16', 'RomeaProofs.Bridge.C16', 'RomeaProofs.Bridge.C16Cor']
 TRUSTED = ['harness/c16.cpp reads the protected members index_/data_.size()/sumOfData_ through subclasses',
            'the double->long long conversion and the final floating-point divisions are executed at Float in the driver '
-           '(compared bit-for-bit / within 4 ulp), the theorems are about the integer state and exact rational statistics']
-ASSUMPTIONS = ['window size >= 1 (>= 2 for the variance); |value|/precision <= 1e8, W <= 64 (the no-overflow theorem\'s domain)']
+           '(compared bit-for-bit / within 4 ulp), the theorems are about the integer state and exact rational statistics',
+           'tools/cxx2lean.py (Python over clang-14\'s JSON AST) translates the OnlineAverage / OnlineVariance constructors, update, reset, '
+           'isAvailable, getAverage / getVariance and RingOfEigenVector<Eigen::Vector2d>\'s constructor, append, clear, size, operator[] from '
+           'the working tree into RomeaModel/Generated/SrcC16.lean on every run; the bridge theorems (RomeaProofs/Bridge/C16*.lean) prove '
+           'them equal to the model for every scalar type and restate the headline theorems about runs through the translated functions']
+ASSUMPTIONS = ['bridge (tie no. 2): std::vector<long long> is read as List Int (size/push_back/[]/clear), the ring\'s vector of Eigen '
+               'vectors as a list over an abstract element type, size_t arithmetic modulo 2^64, signed arithmetic unbounded (overflow is '
+               'UB; excluded on the domain by no_overflow), static_cast<long long>(double) as Trunc.trunc, quiet_NaN() as 0/0, lock_guards skipped',
+               'window size >= 1 (>= 2 for the variance); |value|/precision <= 1e8, W <= 64 (the no-overflow theorem\'s domain)']
 EXPLANATION = 'window/ring invariants proved by induction over all histories on the Lean model; exact differential on op sequences'
 
 PRECISIONS = [1.0, 0.5, 0.1, 0.01, 0.001, 1e-4, 1e-5, 1e-6]
+
+
+# ------------------------------------------------------------------ stage G: the anchored functions translated (DESIGN.md 2.5b)
+BRIDGE_SPEC = {
+    'translator': 'cxx2lean_state',
+    'id': 'C16',
+    'sources': ['src/monitoring/OnlineAverage.cpp', 'src/monitoring/OnlineVariance.cpp'],
+    'headers': ['romea_core_common/containers/Eigen/RingOfEigenVector.hpp'],
+    'extra': ['template class romea::core::RingOfEigenVector<Eigen::Vector2d>;'],
+    'opaque_elements': True,    # the ring's elements (Eigen vectors) are only copied: an abstract element type
+    'unsigned_wrap': True,      # size_t arithmetic is arithmetic modulo 2^64 (the ring index starts at size_t(-1))
+    'functions': [
+        {'cxx': 'OnlineAverage::OnlineAverage', 'sig': 'const double &, size_t'},
+        {'cxx': 'OnlineAverage::update'},
+        {'cxx': 'OnlineAverage::reset'},
+        {'cxx': 'OnlineAverage::isAvailable'},
+        {'cxx': 'OnlineAverage::getAverage'},
+        {'cxx': 'OnlineVariance::OnlineVariance', 'sig': 'const double &, size_t'},
+        {'cxx': 'OnlineVariance::update'},
+        {'cxx': 'OnlineVariance::reset'},
+        {'cxx': 'OnlineVariance::getVariance'},
+        {'cxx': 'RingOfEigenVector::RingOfEigenVector'},
+        {'cxx': 'RingOfEigenVector::append'},
+        {'cxx': 'RingOfEigenVector::clear'},
+        {'cxx': 'RingOfEigenVector::size'},
+        {'cxx': 'RingOfEigenVector::operator[]'},
+    ],
+}
+
+
+def regen(ctx):
+    import bridge
+    return bridge.regen_bridge(ctx, BRIDGE_SPEC)
 
 
 def tolerance(tk):
